@@ -254,8 +254,20 @@ def _aliasable(v):
     return True
 
 
+_ASSIGNED = {}
+
+
 def assigned_names(func):
     """name -> list of ast nodes that (re)bind it inside func (not nested)."""
+    k = id(func.node)
+    if k in _ASSIGNED and _ASSIGNED[k][0] is func.node:
+        return _ASSIGNED[k][1]
+    out = _assigned_names(func)
+    _ASSIGNED[k] = (func.node, out)
+    return out
+
+
+def _assigned_names(func):
     out = {}
 
     def add(t, node):
